@@ -32,6 +32,12 @@ def corpus(prop):
             meta = json.load(open(mp))
             if prop in meta.get("caught_by", []):
                 cases.append(dict(name="seeded:" + name, patch=pp, expect=None, kind="mutant"))
+    # behaviour-preserving refactors written independently (sub-agents): must stay silent for every property
+    bd = os.path.join(core.VERIF, "benign")
+    if os.path.isdir(bd):
+        for name in sorted(os.listdir(bd)):
+            if name.endswith(".diff"):
+                cases.append(dict(name="benign:" + name[:-5], patch=os.path.join(bd, name), kind="twin"))
     return cases
 
 
